@@ -334,6 +334,13 @@ func (e *Engine) callContract(st *State, fr *Frame, callee *ssa.Function, c *Con
 	se2 := &SpecEnv{e: e, st: st, old: pre, fr: cfr, vars: post, env: env, pkg: c.Pkg}
 	e.bindLets(c, se2)
 	for _, en := range c.Ensures {
+		if strings.Contains(en.Src, "sortperm") {
+			// the callee's contract speaks of the permutation its sort applied: a fresh ghost for this call
+			st.ghost["sortperm"] = Val{T: nil, L: []Term{e.ctx.Fresh("sortperm", ArrSort(SInt, SInt))}}
+			break
+		}
+	}
+	for _, en := range c.Ensures {
 		st.Assume(e.evalBool(en.E, se2))
 	}
 	if isAction {
